@@ -34,6 +34,9 @@ type Model struct {
 	Errors   []string // gateway ids that found no effective flow
 	nact     int
 	acts     []*activation
+	matched  map[string]map[int]int // parallel-multiple bookkeeping: catch node -> definition index -> matches not yet used
+	Fired    map[string]int         // catch node -> number of times it released its tokens
+	Dropped  int                    // events that found no armed matching listener
 	Reqs     map[string]int
 	Violations []string
 	// loopCount counts answers per counter variable (the driver mirrors this)
@@ -164,6 +167,9 @@ func (m *Model) arrive(f *Flow, a *activation) {
 		}
 	case "throw":
 		m.leaveAll(n, a)
+	case "evgw":
+		// the token waits at the gateway; its alternatives (the catch events behind it) are armed
+		m.tokens = append(m.tokens, &mtoken{node: n, act: a})
 	default:
 		m.Violations = append(m.Violations, "model: unsupported node kind "+n.Kind)
 	}
@@ -379,7 +385,7 @@ func (m *Model) settle() {
 func (m *Model) Request(id string) string {
 	m.Reqs[id]++
 	for _, t := range m.tokens {
-		if t.node.ID == id && !t.requested && !t.stuck {
+		if t.node.ID == id && !t.requested && !t.stuck && t.node.Kind == "task" {
 			t.requested = true
 			return ""
 		}
@@ -457,7 +463,7 @@ func (m *Model) Live() int { return m.top.live }
 func (m *Model) Pending() []string {
 	var out []string
 	for _, t := range m.tokens {
-		if !t.requested && !t.stuck {
+		if !t.requested && !t.stuck && t.node.Kind == "task" {
 			out = append(out, t.node.ID)
 		}
 	}
@@ -478,3 +484,129 @@ func (m *Model) Waiting() []string {
 }
 
 func (m *Model) Vars() map[string]any { return m.vars }
+
+func defMatches(d EventDef, kind, ref string) bool { return d.Kind == kind && d.Ref == ref }
+
+// Deliver applies one event to the instance: every armed catch event (a catch event with waiting
+// tokens) that matches releases all its waiting tokens once; an event-based gateway whose alternative
+// matches lets its token continue behind that alternative and withdraws the others. Events that find
+// no armed matching listener are dropped without any later effect.
+func (m *Model) Deliver(kind, ref string) {
+	if m.matched == nil {
+		m.matched = map[string]map[int]int{}
+		m.Fired = map[string]int{}
+	}
+	type key struct {
+		n *Node
+		a *activation
+	}
+	var order []key
+	seen := map[key]bool{}
+	for _, t := range m.tokens {
+		if t.stuck || (t.node.Kind != "catch" && t.node.Kind != "evgw") {
+			continue
+		}
+		k := key{t.node, t.act}
+		if !seen[k] {
+			seen[k] = true
+			order = append(order, k)
+		}
+	}
+	any := false
+	for _, k := range order {
+		n := k.n
+		if n.Kind == "evgw" {
+			// alternatives in listed order
+			for _, fid := range n.Out {
+				alt := k.a.graph.Node(k.a.graph.Flow(fid).To)
+				hit := false
+				for _, d := range alt.Events {
+					if defMatches(d, kind, ref) {
+						hit = true
+					}
+				}
+				if hit {
+					any = true
+					m.Fired[alt.ID]++
+					// every token waiting at the gateway continues behind the winning alternative
+					var rest []*mtoken
+					var moved []*mtoken
+					for _, t := range m.tokens {
+						if t.node == n && t.act == k.a {
+							moved = append(moved, t)
+						} else {
+							rest = append(rest, t)
+						}
+					}
+					m.tokens = rest
+					for range moved {
+						m.leaveAll(alt, k.a)
+					}
+					break
+				}
+			}
+			continue
+		}
+		idx := -1
+		for i, d := range n.Events {
+			if defMatches(d, kind, ref) {
+				idx = i
+				break
+			}
+		}
+		if idx < 0 {
+			continue
+		}
+		any = true
+		fire := true
+		if n.Parallel && len(n.Events) > 1 {
+			mk := fmt.Sprintf("%s/%d", n.ID, k.a.id)
+			if m.matched[mk] == nil {
+				m.matched[mk] = map[int]int{}
+			}
+			m.matched[mk][idx]++
+			for i := range n.Events {
+				if m.matched[mk][i] == 0 {
+					fire = false
+				}
+			}
+			if fire {
+				for i := range n.Events {
+					m.matched[mk][i]--
+				}
+			}
+		}
+		if !fire {
+			continue
+		}
+		m.Fired[n.ID]++
+		var rest, moved []*mtoken
+		for _, t := range m.tokens {
+			if t.node == n && t.act == k.a {
+				moved = append(moved, t)
+			} else {
+				rest = append(rest, t)
+			}
+		}
+		m.tokens = rest
+		for range moved {
+			m.leaveAll(n, k.a)
+		}
+	}
+	if !any {
+		m.Dropped++
+	}
+	m.settle()
+}
+
+// Listening lists catch events (and event-based gateways) that currently hold a token.
+func (m *Model) Listening() []string {
+	var out []string
+	for _, t := range m.tokens {
+		if !t.stuck && (t.node.Kind == "catch" || t.node.Kind == "evgw") {
+			out = append(out, t.node.ID)
+		}
+	}
+	sort.Strings(out)
+	return out
+}
